@@ -221,4 +221,34 @@ theorem rr_window (lb : LB) (hn : 0 < lb.size) (hw : lb.nextIndex.toNat + lb.siz
     obtain ⟨i, hi, he⟩ := mem_shift lb.nextIndex.toNat lb.size j hj
     exact List.mem_map.mpr ⟨i, List.mem_range.mpr hi, he⟩
   rw [List.Nodup.count hnd, if_pos hmem]
+
+/-- `k` consecutive accepts under least-connections, each counted on the chosen loop -/
+def lcRun (lb : LB) : Nat → LB
+  | 0 => lb
+  | k + 1 => match lb.lcNext with
+    | none => lb
+    | some i => lcRun (opened lb i) k
+
+theorem opened_size (lb : LB) (i : Nat) : (opened lb i).size = lb.size := by
+  simp [opened, LB.size]
+
+theorem lcRun_balanced (lb : LB) (hb : Balanced lb) (k : Nat) : Balanced (lcRun lb k) := by
+  induction k generalizing lb with
+  | zero => exact hb
+  | succ k ih =>
+    by_cases hn : 0 < lb.size
+    · obtain ⟨i, hi, hbi⟩ := lc_keeps_balanced lb hn hb
+      simp only [lcRun, hi]
+      exact ih _ hbi
+    · have : lb.counts = [] := by
+        cases hc : lb.counts with
+        | nil => rfl
+        | cons a t => simp [LB.size, hc] at hn
+      simp only [lcRun, LB.lcNext, this]
+      exact hb
+
+theorem fresh_balanced (n : Nat) : Balanced ⟨List.replicate n 0, 0⟩ := by
+  intro j k hj hk
+  simp only [LB.size, List.length_replicate] at hj hk
+  simp [List.getD_eq_getElem?_getD, hj, hk]
 end Gnet.Proofs.LB
